@@ -9,7 +9,7 @@
 (* slot numbers as strings.  TLC enumerates all n! table pairs for n <= N  *)
 (* and every argument of the three operations.                             *)
 (***************************************************************************)
-EXTENDS Store, SequencesExt
+EXTENDS Store, SequencesExt, TableLemma
 CONSTANT N
 VARIABLES st, step
 KeyOf(i) == ToString(i)
@@ -30,5 +30,20 @@ NoBadOut == step = 0 =>
   /\ \A i \in 0..(st.size-1) : StoreRemove(st, At(st.keys, i), Inf).out = "ok"
 \* ... and the result is well-formed again
 WFInv == WF(st)
-\* the removed key is really gone and every other key keeps its slot-to-position link
+\* The TLAPS-proved lemmas of TableLemma.tla are stated on functions over 0..n-1.  Correspondence: on every
+\* enumerated store the function-based definitions proved there compute exactly what the sequence-based
+\* operators of Store.tla (the transcription of store.rs) compute.
+FnOf(s) == [k \in 0..(Len(s)-1) |-> s[k+1]]
+SeqOfFn(f, m) == [k \in 1..m |-> f[k-1]]
+Corresponds == step = 0 =>
+  LET n == st.size  h == FnOf(st.heap)  q == FnOf(st.qp) IN
+  /\ \A a, b \in 0..(n-1) :
+        LET r == Swap(st, a, b, Inf).st IN
+        r.heap = SeqOfFn(SwapHeap(h, a, b), n) /\ r.qp = SeqOfFn(SwapQp(h, q, a, b), n)
+  /\ \A pos \in 0..(n-1) :
+        LET r == SwapRemove(st, pos, Inf).st IN
+        r.heap = SeqOfFn(SR_heap2(n, h, q, pos), n-1) /\ r.qp = SeqOfFn(SR_qp2(n, h, q, pos), n-1)
+  /\ \A i \in 0..(n-1) :
+        LET r == StoreRemove(st, At(st.keys, i), Inf).st IN
+        r.heap = SeqOfFn(RM_heap3(n, h, q, i), n-1) /\ r.qp = SeqOfFn(RM_qp3(n, h, q, i), n-1)
 =============================================================================
